@@ -16,6 +16,7 @@ import json
 import os
 import random
 import shutil
+import subprocess
 import sys
 import warnings
 
@@ -359,6 +360,7 @@ def run_real(case):
 
     def logged_run(cmd, **kw):
         kw.setdefault("timeout", 120)
+        kw.setdefault("stderr", subprocess.DEVNULL)     # the stand-in's complaints are not ours to print
         try:
             r = real_run(cmd, **kw)
         except Exception:
